@@ -64,7 +64,13 @@ Definition sitem_okb (s : svstate) (it : sitem) : bool :=
   | VConnect sid => negb (evb (SvConnect sid) s)
   | VConnEnd sid => evb (SvConnect sid) s && negb (evb (SvConnEnd sid) s)
   | VSignal => negb (evb SvSignal s)
-  | VCancel _ cause => bool_decide (cause = ESrvLockWaitTimeout) || bool_decide (cause = ECtxCanceled)
+  | VCancel tid cause =>
+      bool_decide (cause = ECtxCanceled) ||
+      (bool_decide (cause = ESrvLockWaitTimeout) &&
+       match v_thr s !! tid with
+       | Some t => bool_decide (st_pc t = VMgrLock) || bool_decide (st_pc t = VWait) || bool_decide (st_pc t = VWoken)
+       | None => false
+       end)
   | VTick _ | VRun _ => true
   end.
 
@@ -85,7 +91,11 @@ Proof.
       * intros t ->. lia.
     + apply presentedb_sound.
     + intros H. apply andb_prop in H as [H ?]. split; [by apply presentedb_sound|lia].
-  - intros H. apply orb_prop in H as [H|H]; case_bool_decide; auto; done.
+  - (* VCancel: the wait timeout only while the Lock call is inside lockMgr.Lock (sitem_ok, corrected by svinv) *)
+    intros H. apply orb_prop in H as [H|H]; [left; by apply bool_decide_eq_true in H|right].
+    apply andb_prop in H as [H1 H2]. apply bool_decide_eq_true in H1. split; [done|].
+    destruct (v_thr s !! _) as [t|]; [|done]. exists t. split; [done|].
+    apply orb_prop in H2 as [H2|H2]; [apply orb_prop in H2 as [H2|H2]|]; apply bool_decide_eq_true in H2; auto.
   - apply evb_false.
   - intros H. apply andb_prop in H as [H ?]. split; [by apply evb_true|by apply evb_false].
   - apply evb_false.
